@@ -59,6 +59,8 @@ EDITS = [
     ('missing-condition', lambda c: c.replace('match all add-header', 'match add-header', 1)),
     ('and-without-rhs', lambda c: c.replace('and date > 2 weeks', 'and', 1)),
     ('attachment-block-with-move', lambda c: c.replace('match all add-header "X-Seen" "yes" flags "F"', 'match all attachment { match all move "%s/dst" }' % R, 1)),
+    ('empty-attachment-block', lambda c: c.replace('match all add-header "X-Seen" "yes" flags "F"', 'match all attachment { }', 1)),
+    ('empty-attachment-block-nested', lambda c: c.replace('\t\tmatch all flag !new\n', '\t\tmatch all attachment {\n\t\t}\n', 1)),
     ('missing-brace', lambda c: c[:c.rfind('}')]),
     ('stray-token', lambda c: c.replace('match all flag !new', 'match all flag !new }', 1)),
     ('keyword-as-macro', lambda c: 'move = "x"\n' + c),
@@ -66,6 +68,226 @@ EDITS = [
     ('flag-without-new', lambda c: c.replace('flag !new', 'flag !', 1)),
 ]
 
+
+
+# --------------------------------------------------------------------------
+# parser correspondence: config_parse (parse.y) <-> Model/Conf.lean (parseConfig)
+# --------------------------------------------------------------------------
+
+HOME = b'/home/u'
+
+# hand-written corner cases: (configuration text, home, -D definitions)
+CORNERS = [
+    ('', HOME, []),
+    ('# nothing\n', HOME, []),
+    ('maildir "a" {\n match all attachment { }\n}\n', HOME, []),
+    ('maildir "a" { match all attachment { match all exec "x" } }', HOME, []),
+    ('maildir "a" { match all attachment { match all exec "x" match new move "y" } }', HOME, []),
+    ('maildir "a" { match all attachment { match all exec "x" } discard }', HOME, []),
+    ('maildir { } { match all break }', HOME, []),
+    ('maildir { "a" "b"\n"~/c" } { match header { } /x/ label { } }', HOME, []),
+    ('maildir "/dev/stdin" { match all reject }\nstdin { match all discard }', HOME, []),
+    ('maildir "/dev/stdin" { match all reject }\nmaildir "b" { match all break }', HOME, []),
+    ('stdin { match all reject }\nmaildir { "/dev/stdin" "b" } { match all reject }', HOME, []),
+    ('stdin { match all reject }\nmaildir { "b" "/dev/stdin" } { match all reject }', HOME, []),
+    ('stdin {\n match all\n reject\n break }\n', HOME, []),
+    ('stdin {\n match all\n move "a"\n discard\n\n)', HOME, []),
+    ('stdin {\n match all\n move "a"\n\n discard # c\n\n}', HOME, []),
+    ('a = "x"\nb = "${a}y"\nmaildir "${b}" { match all move "${a}/${path}" }', HOME, []),
+    ('a = "x"\nb = "${a}y"\nmaildir "${a}" { match all move "${a}" }', HOME, []),
+    ('a = "x"\n\nmaildir "q" { match all move "z" }', HOME, []),
+    ('maildir "q" { match all move "z" }\na = "x"\n', HOME, []),
+    ('a = "${path}"\nmaildir "${a}" { match all break }', HOME, []),
+    ('path = "x"\nmaildir "q" { match all break }', HOME, []),
+    ('a = "$"\nb = "{path}"\nmaildir "q" { match isdirectory "${a}${b}" move "${a}${b}" }', HOME, []),
+    ('maildir "q" { match isdirectory "${path}" break }', HOME, []),
+    ('maildir "q" { match command "${path}" break }', HOME, []),
+    ('maildir "q" { match header "${path}" /x/ break }', HOME, []),
+    ('maildir "q" { match all label "${path}" exec "${path}" move "${path}x${path" }', HOME, []),
+    ('maildir "q" { match all label "${path}" exec { "a" "${path}" "${nosuch}" } }', HOME, []),
+    ('maildir "q" { match all flags "${nosuch}" add-header "${a}" "${b}" }', HOME, []),
+    ('a = "1"\na = "2"\nmaildir "q" { match all move "${a}" }', HOME, [(b'a', b'D')]),
+    ('a = "1"\nmaildir "q" { match all move "${a}" }', HOME, [(b'a', b'D')]),
+    ('maildir "q" { match all move "x" }', HOME, [(b'a', b'D')]),
+    ('maildir "q" { match all move "${a b}" }', HOME, [(b'a b', b'${x}')]),
+    ('maildir "q" { match all move "x" }', HOME, [(b'path', b'D')]),
+    ('maildir "q" { match all move "${a}" }', HOME, [(b'a', b'1'), (b'a', b'2')]),
+    ('maildir "~" { match isdirectory "~x" move "~/y~" label "~/l" }', HOME, []),
+    ('maildir "~/m" { match all move "~/${h}" }\n', b'/h/${h}', [(b'h', b'HH')]),
+    ('maildir "~/m" { match all break }\n', b'/' + b'h' * 4092, []),
+    ('maildir "~/m" { match all break }\n', b'/' + b'h' * 4093, []),
+    ('maildir "~/m" { match all break }\n', b'/' + b'h' * 4094, []),
+    ('maildir "q" { match date > 4294967295 seconds break }', HOME, []),
+    ('maildir "q" { match date > 4294967296 seconds break }', HOME, []),
+    ('maildir "q" { match date > 71582788 minutes break }', HOME, []),
+    ('maildir "q" { match date > 71582789 minutes break }', HOME, []),
+    ('maildir "q" { match date\n>\n136\ny break }', HOME, []),
+    ('maildir "q" { match date > 137 years break }', HOME, []),
+    ('maildir "q" { match date modified < 0 s and date access > 1 h or date created > 2 d and date header < 3 w break }', HOME, []),
+    ('maildir "q" { match date > 1 m break }', HOME, []),
+    ('maildir "q" { match date > 1 old break }', HOME, []),
+    ('maildir "q" { match date > 1\nfoo break }', HOME, []),
+    ('maildir "q" { match date > 1 "s" break }', HOME, []),
+    ('maildir "q" { match date > x break }', HOME, []),
+    ('maildir "q" { match date 1 s break }', HOME, []),
+    ('maildir "q" { match date > 1 seconds\nx break }', HOME, []),
+    ('foo\n\n = "x"\nmaildir "${foo}" { match all break }', HOME, []),
+    ('foo # c\n = "x"\nmaildir "${foo}" { match all break }', HOME, []),
+    ('foo\n\nbar = "x"', HOME, []),
+    ('foo =\n\n', HOME, []),
+    ('foo', HOME, []),
+    ('maildir "q" {\n foo\n}', HOME, []),
+    ('maildir "q" {\n match all move "a" foo\n}', HOME, []),
+    ('maildir "q" {\n match all move\n foo\n}', HOME, []),
+    ('maildir "q" { match ! ! attachment ! all and attachment new or ( old or ! ( all ) ) and new break }', HOME, []),
+    ('maildir "q" { match ( all\n)\n and\n ( new\n or old\n ) {\n match all break\n }\n }', HOME, []),
+    ('maildir "q" { match ( all and ) break }', HOME, []),
+    ('maildir "q" { match ( all break }', HOME, []),
+    ('maildir "q" { match all ) break }', HOME, []),
+    ('maildir "q" { match all { } }', HOME, []),
+    ('maildir "q" { match all {\n match new { match old break }\n} }', HOME, []),
+    ('maildir "q" { match all {\n match new { match old\n} } }', HOME, []),
+    ('maildir "q" { }', HOME, []),
+    ('maildir "q" {\n\n}\n\n', HOME, []),
+    ('maildir "q" { match body /a/ and body "x" break }', HOME, []),
+    ('maildir "q" { match body ! break }', HOME, []),
+    ('maildir "q" { match body # c\n /a/ break }', HOME, []),
+    ('maildir "q" { match body /a/lu break }', HOME, []),
+    ('maildir "q" { match body /a(/ break }', HOME, []),
+    ('maildir "q" { match body\n\n/a(/i\n\nbreak }', HOME, []),
+    ('maildir "q" { match header "a"\n/a(/\n\nbreak }', HOME, []),
+    ('maildir "q" { match header "${no}"\n/a(/\n\nbreak }', HOME, []),
+    ('maildir "q" { match body //  break }', HOME, []),
+    ('maildir "q" { match body /\\//  break }', HOME, []),
+    ('maildir "q" { match body /a\nb/i  break }', HOME, []),
+    ('maildir "q" { match all exec stdin body "x" exec body stdin "y" exec stdin "z" }', HOME, []),
+    ('maildir "q" { match all exec body "x" }', HOME, []),
+    ('maildir "q" { match all exec\nbody\n{ "x"\n}\n}', HOME, []),
+    ('maildir "q" { match all exec stdin\nstdin "x" }', HOME, []),
+    ('maildir "q" { match all exec body body "x" }', HOME, []),
+    ('maildir "q" { match all exec stdin }', HOME, []),
+    ('maildir "q" { match all flag new flag ! new flag !\nnew flag }', HOME, []),
+    ('maildir "q" { match all flag ! ! new }', HOME, []),
+    ('maildir "q" { match all add-header "a" }', HOME, []),
+    ('maildir "q" { match all add-header "a" "b" "c" }', HOME, []),
+    ('maildir "q" { match all move "a" move "b" label "c" pass break pass }', HOME, []),
+    ('maildir "q" { match all discard discard }', HOME, []),
+    ('maildir "q" { match all break discard }', HOME, []),
+    ('maildir "q" { match all discard }', HOME, []),
+    ('maildir "q" { match all reject }', HOME, []),
+    ('maildir "q" { match all attachment { match all exec "x" } reject }', HOME, []),
+    ('stdin { match all attachment { match all exec "x" } reject }', HOME, []),
+    ('stdin { match all attachment { match all reject } }', HOME, []),
+    ('stdin { match all attachment { match all exec "x" exec "y" break } }', HOME, []),
+    ('stdin { match all attachment { match all attachment { match all exec "x" } } }', HOME, []),
+    ('stdin { match all attachment }', HOME, []),
+    ('stdin stdin', HOME, []),
+    ('stdin { match all break } }', HOME, []),
+    ('stdin { match all break }\x00 garbage', HOME, []),
+    ('stdin { match all break \x00 }', HOME, []),
+    ('maildir "a\nb" { match all move "c\n\nd" label "e"\n}', HOME, []),
+    ('maildir "a" { match all move "" }', HOME, []),
+    ('maildir "a" { match all move\n\n"" }', HOME, []),
+    ('maildir "a" { match all move "x\n', HOME, []),
+    ('maildir "a" { match all label { "x"\n"y" move }', HOME, []),
+    ('maildir "a" { match all label { "x" "y" } } maildir "b" { match new break }\nstdin { match old discard }', HOME, []),
+    ('maildir "a" { match command { "sh" "-c" "exit ${x}" } or isdirectory "~/${x}" break }\nx = "1"', HOME, []),
+    ('x = "1"\nmaildir "a" { match command { "sh" "-c" "exit ${x}" } or isdirectory "~/${x}" break }\n', HOME, []),
+    ('and = "x"', HOME, []),
+    ('maildir = "x"', HOME, []),
+    ('x-y = "x" maildir "${x-y}" { match all break }', HOME, []),
+    ('x = "a" = "b"', HOME, []),
+    ('x == "a"', HOME, []),
+    ('maildir "a" { match all move "4294967296" } 99999999999', HOME, []),
+    ('maildir "a" { match all break } 12', HOME, []),
+    ('maildir "a" { match 12 break }', HOME, []),
+]
+
+VOCAB = ['maildir', 'stdin', 'match', 'all', 'new', 'old', 'and', 'or', '!', '(', ')', '{', '}', 'attachment', 'body', 'header',
+         'date', 'isdirectory', 'command', 'move', 'flag', 'flags', 'label', 'discard', 'break', 'pass', 'reject', 'exec', 'add-header',
+         'access', 'modified', 'created', '<', '>', '=', '"s"', '"~/t"', '"${m}"', '"${path}"', '/p/', '/q(/', '/r/il', '7', '99', 'seconds',
+         'da', 'm', 'years', 'foo', 'm', '# c\n', '"/dev/stdin"', '4294967295']
+
+
+def token_soup(rng):
+    """Random token sequences biased towards the grammar: mostly short rules with random defects."""
+    out = []
+    if rng.random() < 0.3:
+        out.append('m = "v"')
+    out.append(rng.choice(['maildir "d" {', 'stdin {', 'maildir { "a" "b" } {', 'maildir "${m}" {']))
+    for _ in range(rng.randrange(1, 4)):
+        out.append('match')
+        for _ in range(rng.randrange(1, 7)):
+            out.append(rng.choice(VOCAB))
+    out.append('}')
+    seps = [' ', ' ', ' ', '\n', '\n\n', '\t', ' # x\n']
+    return ''.join(t + rng.choice(seps) for t in out)
+
+
+def respace(rng, text):
+    """Spread a configuration over more lines: blanks become newlines or comments (also inside strings and patterns)."""
+    out = []
+    for ch in text:
+        if ch == ' ' and rng.random() < 0.25:
+            out.append(rng.choice(['\n', '\n\n', ' # c\n', '\n\t']))
+        else:
+            out.append(ch)
+    return ''.join(out)
+
+
+def conf_requests(rng, tier, texts):
+    reqs = []
+    for t, home, defs in CORNERS:
+        r = ['conf', t.encode('latin-1'), home]
+        for k, v in defs:
+            r += [k, v]
+        reqs.append(tuple(r))
+    base = BASE.replace('@HELPER@', '/bin/true').replace(R, '/r')
+    pool = [base] + [e(base) for _, e in EDITS if e(base) is not None]
+    gcs = []
+    n = 250 if tier == 'quick' else 20000
+    for _ in range(n):
+        g = gen_rules.Gen(rng, depth=rng.choice([0, 1, 2, 3]), rules_max=rng.choice([1, 2, 3, 4]), errors=True)
+        g.interp = rng.random() < 0.5
+        conf = g.config()
+        k = rng.random()
+        if k < 0.3:
+            conf = 'm = "~/dst"\n' + conf.replace('"~/dst/', '"${m}/')
+        elif k < 0.4:
+            conf = conf + 'stdin {\n%s}\n' % g.block(1)
+        gcs.append(conf)
+    pool += gcs
+    for t in list(pool):
+        pool.append(respace(rng, t))
+    for t in pool:
+        reqs.append(('conf', t.encode('latin-1'), HOME, b'nope', b'NOPE') if '${nope}' in t and rng.random() < 0.5
+                    else ('conf', t.encode('latin-1'), HOME))
+    for _ in range(n * 2):
+        reqs.append(('conf', token_soup(rng).encode('latin-1'), HOME))
+    # byte-level mutants of everything above and the texts of the lexer stage
+    src = [r[1] for r in reqs] + [t.encode('latin-1') for t in texts[:400]]
+    for _ in range(n * 2):
+        t = bytearray(rng.choice(src))
+        for _ in range(rng.randrange(1, 3)):
+            k = rng.randrange(6)
+            i = rng.randrange(len(t) + 1)
+            if k == 0 and t:
+                del t[min(i, len(t) - 1)]
+            elif k == 1:
+                t[i:i] = rng.choice([b'"', b'/', b'\\', b'#', b'\n', b'{', b'}', b'!', b'9', b'$', b'${', b' ', b'\x00', b'\xff', b'~', b'=', b'(', b')'])
+            elif k == 2 and t:
+                t[min(i, len(t) - 1)] = rng.randrange(256)
+            elif k == 3:
+                t = t[:i]
+            elif k == 4 and t:
+                j = rng.randrange(len(t) + 1)
+                a, b = min(i, j), max(i, j)
+                t[i:i] = t[a:b][:200]
+            else:
+                t[i:i] = rng.choice([b'match ', b'and ', b' or ', b'attachment ', b'date > 99999999 y ', b'\nstdin { match all discard }\n',
+                                     b'"' + b'a' * 8200 + b'"', b'x' * 8200])
+        reqs.append(('conf', bytes(t), HOME))
+    return reqs
 
 def population():
     t = ws.base_tree(2, 1)
@@ -117,8 +339,9 @@ def run(rep):
     h = sc.unit_harness('h_parse', ['parse.c'])
     henv = dict(vlib.ASAN_ENV, HARNESS_TMP=sc.dir)
     vlib.lean_gate(rep, 'C14', sc, [
-        'the LALR automaton bison generates from parse.y is not modelled: the lexer is (Model/Lex.lean), token by token against the real '
-        'yylex as driven by the real parser; acceptance and rejection are judged on the real binary',
+        'the parser model (Model/Conf.lean) follows the LALR automaton bison generates from parse.y only up to the first diagnostic '
+        '(error recovery is not modelled) and without its stack limit of 10000 states; it is compared with the real parser on '
+        'accept/reject, first diagnostic line, trees and yylex calls (this run); regcomp is the platform library on both sides',
     ])
     # 1. lexer correspondence on grammar configs, their invalid edits, byte mutants and random bytes
     n = 300 if rep.tier == 'quick' else 20000
@@ -177,6 +400,26 @@ def run(rep):
             if a != b and not (a.startswith('int ') and b.startswith('int ') and a.split(' ')[2:] == b.split(' ')[2:] and a.split(' ')[3] != '0'):
                 corr_bad.append({'config': t[:1500], 'implementation': a, 'model': b})
                 break
+    # 1b. parser correspondence: accept/reject, line of the first diagnostic, every block's tree, number of yylex calls
+    creqs = conf_requests(rng, rep.tier, texts)
+    dconf = vlib.Differential(rep, [h], env=henv, spec_ops=set(), name='h_parse')
+    cimpl, cmodel, _ = dconf.run(creqs, shrink=False)
+    conf_ok = sum(1 for x in cimpl if x.startswith('OK'))
+    conf_err = sum(1 for x in cimpl if x.startswith('ERR'))
+    conf_lines = len(set(x for x in cimpl if x.startswith('ERR')))
+    conf_nodes = sum(len(re.findall(r' (?:block|and|or|neg|match|attachment|attblock) ', x)) for x in cimpl if x.startswith('OK'))
+    # 1c. the written form (Spec.printBlocks) of every accepted configuration that is in Spec.ConfOK goes through both parsers
+    # again: the real parser must accept it and build the same trees (all nodes on line 1: C14_accepts_grammar_partial)
+    okreqs = [r_ for r_, im_ in zip(creqs, cimpl) if im_.startswith('OK')]
+    pout = vlib.run_batch([vlib.driver_path()], ['M confprint ' + ' '.join(vlib.hexs(a) for a in r_[1:]) for r_ in okreqs])
+    preqs = [('conf', vlib.unhex(o[2:]), r_[2]) for r_, o in zip(okreqs, pout) if o.startswith('P ')]
+    pimpl, pmodel, _ = dconf.run(preqs, shrink=False)
+    printed_bad = [(r_, im_) for r_, im_ in zip(preqs, pimpl) if not im_.startswith('OK') or re.search(r' (?:block|and|or|neg|match|attachment|attblock|all|new|old|body|header|date|stat|command|move|flag|flags|discard|break|label|pass|reject|exec|addheader) (?!1 )\d+', im_)]
+    for r_, im_ in printed_bad[:5]:
+        rep.finding('unlisted', {'kind': 'written form not read back on line 1', 'config': r_[1][:1500].decode('latin-1'), 'implementation': im_[:600]})
+    for r_, im_, mo_ in zip(creqs, cimpl, cmodel):
+        if mo_ in ('FUEL', 'BADOP', 'BADHEX') or mo_.startswith('FAULT'):
+            dconf.corr_mismatch.append((r_, im_, mo_, None)) if im_ == mo_ else None
     # 2. acceptance: grammar-generated configurations are accepted (-n), whatever their rule structure
     acc = [base] + grammar_configs(rng, 60 if rep.tier == 'quick' else 3000)
     rej = [(name, e(BASE)) for name, e in EDITS if e(BASE) is not None]
@@ -237,6 +480,7 @@ def run(rep):
     if corr_bad and not rep.violations:
         rep.violation({'obligation': 'correspondence yylex (parse.y) <-> Model/Lex.lean, token by token under the real parser', 'disagreements': len(corr_bad),
                        'examples': corr_bad[:6]}, False)
+    dconf.conclude('config_parse (parse.y, bison) <-> Model/Conf.lean parseConfig: accept/reject, first diagnostic line, trees, yylex calls')
     vlib.lean_conclude(rep)
     rep.coverage.update({
         'evaluations': len(texts) + len(results),
@@ -251,6 +495,10 @@ def run(rep):
         'tokens_compared': ntok,
         'error_classes': [name for name, _ in rej],
         'correspondence_mismatches': len(corr_bad),
+        'parser_requests': len(creqs), 'parser_accepted': conf_ok, 'parser_rejected': conf_err,
+        'parser_distinct_diagnostic_lines': conf_lines, 'parser_inner_nodes_compared': conf_nodes,
+        'parser_mismatches': len(dconf.corr_mismatch),
+        'printed_configs_read_back': len(preqs), 'printed_configs_bad': len(printed_bad),
         'sanitizer_faults': nfault,
     })
 
